@@ -229,6 +229,10 @@ fn gen_factors_in(w: &mut Rng, d: &mut Rng, b: &Building, fired: &mut Vec<String
 
 fn gen_num(o: &mut Rng, valid: &[&str], p_hostile: f64) -> String {
     if o.chance(p_hostile) {
+        if o.chance(0.06) {
+            // option text that is not valid UTF-8 (arguments are byte strings)
+            return worldp::raw_arg(*o.pick(&[&b"\xff"[..], &b"1\xff"[..], &b"0.5\xc3"[..], &b"\xed\xa0\x80"[..]]));
+        }
         o.pick(HOSTILE_NUMS).to_string()
     } else {
         o.pick(valid).to_string()
